@@ -49,7 +49,11 @@ RULE = ('corpus first, then random cases over ops {collect_charge (scalar/vector
         'sequences of 2..4 Bayer calls on one frame shape with varying oversample/pattern/flatten, histories of 2..4 '
         'collect_charge/collect_charge_bayer calls sharing ONE set of efficiency objects (Spectrum in nm/um/angstrom/m, cube '
         'wavelengths on the spectrum end points in its own unit and in every exactly convertible unit, e.g. a table at 0.5..1.0 um '
-        'requested at 500..1000 nm / 5000..10000 angstrom; spectrum compared exactly before/after every call), single calls whose '
+        'requested at 500..1000 nm / 5000..10000 angstrom; spectrum compared exactly before/after every call; explicit '
+        'Spectrum.to(unit) / Spectrum.resample(wave, waveunit=unit) steps on one efficiency between the calls, optionally with all '
+        'spectra built on ONE shared wavelength ndarray: the prepared object must denote the converted / resampled table, every '
+        'other object and the caller\'s array must stay untouched), caller numpy error state raise/ignore (must not matter, must '
+        'not be changed), oversample as uint8, single calls whose '
         'efficiency Spectrum is tabulated exactly ON the cube wavelengths for every exact (table unit, cube unit) pair, histories '
         'of 2..4 adc calls on one frame object (shared or per-call gain objects, unity gain in the forms 1 / 1.0 / array(1.0) / '
         '[1.0] / ones frame / ones cube), the cross product of 8 gain forms x capacity None/given x frame float64/float32/int64/'
@@ -153,7 +157,7 @@ def json_map_t(x):
     return tuple(json_map_t(v) for v in x) if isinstance(x, list) else x
 
 
-def qe_impl(qe):
+def qe_impl(qe, shared_wave=None):
     lentil = C.import_lentil()
     if qe['kind'] == 'scalar':
         v = F(qe['v'])
@@ -165,7 +169,7 @@ def qe_impl(qe):
     if qe['kind'] == 'vec':
         return as_form([float(F(x)) for x in qe['v']], qe.get('form'), qe.get('wrap'))
     u = qe['unit']
-    return lentil.radiometry.Spectrum(np.array([to_unit(x, u) for x in qe['grid']]),
+    return lentil.radiometry.Spectrum(shared_wave if shared_wave is not None else np.array([to_unit(x, u) for x in qe['grid']]),
                                       np.array([float(F(x)) for x in qe['vals']]), waveunit=u)
 
 
@@ -220,7 +224,7 @@ def mk_wave(c):
 
 
 def mk_os(c):
-    return np.int64(c['os']) if c.get('os_form') == 'np' else c['os']
+    return np.int64(c['os']) if c.get('os_form') == 'np' else (np.uint8(c['os']) if c.get('os_form') == 'u8' and 0 <= c['os'] < 256 else c['os'])
 
 
 def pattern_codes(s):
@@ -321,6 +325,7 @@ def gen_collect(rng):
         faint(rng, case, ['qe'])
     case['img_wrap'] = rng.choice(WRAPS)
     case['wave_wrap'] = rng.choice(WRAPS)
+    case['errstate'] = rng.choice([None, None, None, 'raise', 'ignore'])
     if case['qe']['kind'] == 'vec':
         case['qe']['wrap'] = rng.choice(WRAPS)
     return case
@@ -337,7 +342,7 @@ def gen_bayer(rng, pk=None, os_=None, pat=None):
     case = {'op': 'bayer', 'wave': wave, 'unit': rng.choice(UNITS), 'os': os_,
             'pattern': pat or rnd_pattern(rng, pk), 'flatten': rng.random() < 0.65,
             'img_dtype': rng.choice(IMG_DTYPES), 'wave_form': rng.choice(['ndarray', 'ndarray', 'list', 'tuple']),
-            'os_form': rng.choice(['int', 'int', 'np'])}
+            'os_form': rng.choice(['int', 'int', 'np', 'u8']), 'errstate': rng.choice([None, None, None, 'raise', 'ignore'])}
     t = rng.random()
     if t < 0.06:          # image size that is not a multiple of pattern*oversample (outside the property: model decides)
         r, c = max(1, r + rng.choice([-1, 1, 2])), max(1, c + rng.choice([-1, 0, 1]))
@@ -415,15 +420,29 @@ def sub_cases(c):
         return [dict(call, op='adc', img=c['img'], gain=call.get('gain', c['gain']), int_img=c['int_img'],
                      img_dtype=c['img_dtype']) for call in c['calls']]
     out = []
+    cur = list(c['pool'])          # what each efficiency object denotes at this point of the history
     for call in c['calls']:
+        if call['fn'] in ('to', 'resample'):      # an explicit preparation of one efficiency Spectrum: no charge collected
+            cur[call['qe']] = prepared(cur[call['qe']], call)
+            out.append(None)
+            continue
         sc = {'img': c['img'], 'img_dtype': c.get('img_dtype'), 'wave': call['wave'], 'unit': call['unit']}
         if call['fn'] == 'collect':
-            sc.update(op='collect', qe=c['pool'][call['qe']])
+            sc.update(op='collect', qe=cur[call['qe']])
         else:
-            sc.update(op='bayer', qr=c['pool'][call['qr']], qg=c['pool'][call['qg']], qb=c['pool'][call['qb']],
+            sc.update(op='bayer', qr=cur[call['qr']], qg=cur[call['qg']], qb=cur[call['qb']],
                       pattern=call['pattern'], os=call['os'], flatten=call['flatten'])
         out.append(sc)
     return out
+
+
+def prepared(q, step):
+    """the efficiency a Spectrum denotes after Spectrum.to(unit) (the same table, expressed in the unit) or after
+    Spectrum.resample(wave, waveunit=unit) (the table of its linearly interpolated values on the new grid, 0 outside)"""
+    if step['fn'] == 'to':
+        return dict(q, unit=step['unit'], fuzzy=True)
+    return {'kind': 'spectrum', 'unit': step['unit'], 'grid': list(step['wave']),
+            'vals': [str(spectrum_exact(q, w)) for w in step['wave']]}
 
 
 SEQ_OPS = ('bayer_seq', 'qe_seq', 'adc_seq')
@@ -470,6 +489,12 @@ def gen_qe_seq(rng):
         pool.append({'kind': 'spectrum', 'unit': unit, 'grid': grid, 'vals': [str(rng.choice(DY)) for _ in grid]})
     if rng.random() < 0.4:
         pool.append(rnd_qe(rng, [0] * nw, ('scalar', 'vec')))
+    shared = rng.random() < 0.3        # all spectra on ONE wavelength ndarray (one datasheet table, several curves)
+    if shared:
+        for q in pool:
+            if q['kind'] == 'spectrum':
+                q['grid'], q['unit'] = list(pool[0]['grid']), pool[0]['unit']
+                q['vals'] = [str(rng.choice(DY)) for _ in q['grid']]
     native = pool[0]['unit']
     r, c = rng.choice([(4, 4), (6, 6), (4, 8), (2, 2), (3, 5)])
     n = rng.randint(2, 4)
@@ -477,28 +502,48 @@ def gen_qe_seq(rng):
     if not dyadic and rng.random() < 0.75:      # a foreign unit first, the spectrum's own unit later
         units[0] = rng.choice([u for u in UNITS if u != native])
         units[-1] = native
+    cur = list(pool)
+    spec_idx = [k for k, q in enumerate(pool) if q['kind'] == 'spectrum']
+    preps = rng.random() < 0.45           # explicit Spectrum.to / Spectrum.resample on an efficiency before collecting
     calls = []
-    for u in units:
+
+    def ok_request(q, u, w):
+        """w may be requested from q in unit u: clearly inside or outside the table, or exactly on an end point that is hit
+        without any rounding (see on_table; never after a to(), which leaves the grid rounded)"""
+        g0, g1 = F(q['grid'][0]), F(q['grid'][-1])
+        if w != g0 and w != g1:
+            return True
+        return not q.get('fuzzy') and on_table(q['unit'], u, w)
+
+    for pos, u in enumerate(units):
+        if preps and rng.random() < 0.6:
+            k = rng.choice(spec_idx)
+            if rng.random() < 0.5:
+                step = {'fn': 'to', 'qe': k, 'unit': rng.choice([x for x in UNITS if x != cur[k]['unit']])}
+            else:
+                g0, g1 = int(F(cur[k]['grid'][0])), int(F(cur[k]['grid'][-1]))
+                inner = [w for w in range(g0 + 5, g1, 5)]
+                if len(inner) < 2:
+                    inner = None
+                step = None if inner is None else {'fn': 'resample', 'qe': k, 'unit': rng.choice(UNITS),
+                                                   'wave': sorted(rng.sample(inner, min(len(inner), rng.randint(2, 5))))}
+            if step is not None:
+                cur[k] = prepared(cur[k], step)
+                calls.append(step)
         fn = 'bayer' if (r % 2 == 0 and c % 2 == 0 and rng.random() < 0.35) else 'collect'
         idx = [rng.randrange(len(pool)) for _ in range(3)]
         if rng.random() < 0.7:
             idx[0] = 0
         used = idx if fn == 'bayer' else idx[:1]
-        spectra = [pool[k] for k in used if pool[k]['kind'] == 'spectrum']
-        lo_ok = all(on_table(q['unit'], u, lo) for q in spectra)
-        hi_ok = all(on_table(q['unit'], u, hi) for q in spectra)
-        nodes = sorted({g for q in pool if q['kind'] == 'spectrum' for g in q['grid'][1:-1]})
-        cand = sorted(set(nodes + [(a + b) // 2 for a, b in zip([lo] + nodes, nodes + [hi]) if (a + b) % 2 == 0]) - {lo, hi})
+        spectra = [cur[k] for k in used if cur[k]['kind'] == 'spectrum']
+        allowed = [w for w in range(lo, hi + 1, 5) if all(ok_request(q, u, F(w)) for q in spectra)]
+        ends = [w for q in spectra[:1] for w in (int(F(q['grid'][0])), int(F(q['grid'][-1]))) if w in allowed]
         wave = set()
-        if spectra:
-            if lo_ok and rng.random() < 0.85:
-                wave.add(lo)
-            if hi_ok and rng.random() < (0.8 if dyadic else 0.5):
-                wave.add(hi)
+        for w, pr in zip(ends, (0.85, 0.8 if dyadic else 0.5)):
+            if rng.random() < pr:
+                wave.add(w)
         wave = sorted(wave)[:nw]
-        rest = [w for w in cand if w not in wave]
-        if len(rest) < nw - len(wave):
-            rest = sorted(set(rest) | {w for w in range(lo + 5, hi, 5) if w not in wave})
+        rest = [w for w in allowed if w not in wave]
         wave = sorted(wave + rng.sample(rest, nw - len(wave)))
         call = {'fn': fn, 'unit': u, 'wave': wave}
         if fn == 'collect':
@@ -509,7 +554,7 @@ def gen_qe_seq(rng):
                         flatten=rng.random() < 0.6)
         calls.append(call)
     return {'op': 'qe_seq', 'img': rnd_cube(rng, nw, r, c, hi=12), 'img_dtype': rng.choice(IMG_DTYPES), 'pool': pool,
-            'calls': calls}
+            'shared_grid': shared, 'calls': calls}
 
 
 def gen_table_on_cube(rng):
@@ -703,7 +748,7 @@ def gen_adc(rng):
     case = {'op': 'adc', 'img': img, 'int_img': int_img, 'img_dtype': img_dtype, 'gain': gain, 'sat': sat,
             'sat_form': rng.choice(['py', 'py', 'np']), 'warn': rng.random() < 0.6, 'dtype': None,
             'dtype_form': rng.choice(['dtype', 'str', 'type']), 'img_wrap': rng.choice(WRAPS),
-            'warn_form': rng.choice(['bool', 'bool', 'np', 'int'])}
+            'warn_form': rng.choice(['bool', 'bool', 'np', 'int']), 'errstate': rng.choice([None, None, None, 'raise', 'ignore'])}
     if rng.random() < 0.5:
         exp = adc_expected(case)
         if exp is not None:
@@ -822,8 +867,9 @@ def encode(c):
                 out += e1[1:]
             return out
         if op in ('qe_seq', 'adc_seq'):       # op 6: every call carries its own tag (= the op code of the single call)
-            out = [6, len(c['calls'])]
-            for sc in sub_cases(c):
+            scs = [sc for sc in sub_cases(c) if sc is not None]
+            out = [6, len(scs)]
+            for sc in scs:
                 e1 = encode(sc)
                 if e1 is None:
                     return None
@@ -855,6 +901,9 @@ def decode(c, ints):
         assert rd.z() == 0
         out = []
         for sc in sub_cases(c):
+            if sc is None:
+                out.append(None)
+                continue
             n = rd.z()
             out.append(decode(sc, [rd.z() for _ in range(n)]))
         assert rd.done()
@@ -907,14 +956,51 @@ def mk_gain(g):
     return as_form(json_map(g['v'], lambda x: float(F(x))), form, g.get('wrap'))
 
 
+class caller_errstate:
+    """the caller's numpy error state (all='raise' / 'ignore'): results must not depend on it and the library must
+    leave it as it found it"""
+    def __init__(self, mode):
+        self.mode, self.changed = mode, None
+
+    def __enter__(self):
+        self.cm = np.errstate(all=self.mode) if self.mode else None
+        if self.cm:
+            self.cm.__enter__()
+        self.before = np.geterr()
+        return self
+
+    def __exit__(self, *a):
+        after = np.geterr()
+        if after != self.before:
+            self.changed = f'{self.before} -> {after}'
+        if self.cm:
+            self.cm.__exit__(*a)
+        return False
+
+
+def with_errstate(c, f):
+    es = caller_errstate(c.get('errstate'))
+    with es:
+        res = f()
+    if es.changed:
+        res['errstate_changed'] = es.changed
+    return res
+
+
 def call_collect(D, c, img, wave, qe):
-    try:
-        return canon_arr(D.collect_charge(img, wave, qe, waveunit=c['unit']))
-    except Exception as e:
-        return {'err': type(e).__name__}
+    def f():
+        try:
+            return canon_arr(D.collect_charge(img, wave, qe, waveunit=c['unit']))
+        except Exception as e:
+            return {'err': type(e).__name__}
+    return with_errstate(c, f)
 
 
 def call_bayer(D, c, img, wave, qr, qg, qb):
+    return with_errstate(c, lambda: call_bayer_(D, c, img, wave, qr, qg, qb))
+
+
+def call_bayer_(D, c, img, wave, qr, qg, qb):
     try:
         out = D.collect_charge_bayer(img, wave, qr, qg, qb, c['pattern'], oversample=mk_os(c), waveunit=c['unit'],
                                      flatten=flag(c['flatten'], c.get('flatten_form')))
@@ -946,6 +1032,10 @@ def frame_diff(img, before):
 
 
 def call_adc(D, c, img, gain):
+    return with_errstate(c, lambda: call_adc_(D, c, img, gain))
+
+
+def call_adc_(D, c, img, gain):
     before = [list(r) for r in img] if isinstance(img, list) else img.copy()
     try:
         sat = None
@@ -998,10 +1088,33 @@ def run_impl(c):
         return {'seq': [run_impl(sc) for sc in sub_cases(c)]}
     if op == 'qe_seq':           # one frame and one pool of efficiency objects shared by all calls of the history
         img = np_img(c['img'], c.get('img_dtype'), c.get('img_wrap'))
-        pool = [qe_impl(q) for q in c['pool']]
+        shared = None
+        if c.get('shared_grid'):       # R/G/B curves of one datasheet: every Spectrum is built on the SAME wavelength ndarray
+            q0 = next(q for q in c['pool'] if q['kind'] == 'spectrum')
+            shared = np.array([to_unit(x, q0['unit']) for x in q0['grid']])
+        pool = [qe_impl(q, shared) for q in c['pool']]
         states = {k: spectrum_state(o) for k, o in enumerate(pool) if c['pool'][k]['kind'] == 'spectrum'}
         out = []
         for call, sc in zip(c['calls'], sub_cases(c)):
+            if sc is None:
+                k = call['qe']
+                res = {'prep': True}
+                try:
+                    if call['fn'] == 'to':
+                        pool[k].to(call['unit'])
+                    else:
+                        pool[k].resample(np.array([to_unit(w, call['unit']) for w in call['wave']]), waveunit=call['unit'])
+                    if pool[k].waveunit != call['unit']:
+                        res['err'] = f'WrongUnitLabel({pool[k].waveunit})'
+                except Exception as e:
+                    res['err'] = type(e).__name__
+                states[k] = spectrum_state(pool[k])      # this object has legitimately changed; the others must not
+                res['spectra_changed'] = [f'efficiency spectrum #{j}: {m}' for j, st in states.items() if j != k
+                                          for m in [spectrum_changes(pool[j], st)] if m]
+                if shared is not None and not np.array_equal(shared, np.array([to_unit(x, q0['unit']) for x in q0['grid']])):
+                    res['spectra_changed'].append('the caller\'s wavelength array itself was rewritten')
+                out.append(res)
+                continue
             wave = mk_wave(sc)
             if call['fn'] == 'collect':
                 res = call_collect(D, sc, img, wave, pool[call['qe']])
@@ -1146,6 +1259,8 @@ def compare(c, impl, model):
     op = c['op']
     if op in SEQ_OPS:
         for n, (sc, a, b) in enumerate(zip(sub_cases(c), impl['seq'], model['seq'])):
+            if sc is None:
+                continue
             m = compare(sc, a, b)
             if m:
                 return f'call {n + 1} of the sequence: {m}'
@@ -1254,6 +1369,8 @@ def adc_expected(c):
 
 
 def oracle(c, impl):
+    if isinstance(impl, dict) and impl.get('errstate_changed'):
+        return f'the call changed the caller\'s numpy error state: {impl["errstate_changed"]}'
     op = c['op']
     if op == 'bayer_seq':
         for n, (sc, a) in enumerate(zip(sub_cases(c), impl['seq'])):
@@ -1264,7 +1381,14 @@ def oracle(c, impl):
         return None
     if op == 'qe_seq':
         for n, (call, sc, a) in enumerate(zip(c['calls'], sub_cases(c), impl['seq'])):
-            hist = [(x['fn'], x['unit']) for x in c['calls'][:n]]
+            hist = [(x['fn'], x['unit']) + ((f"#{x['qe']}",) if x['fn'] in ('to', 'resample') else ()) for x in c['calls'][:n]]
+            if sc is None:
+                if 'err' in a:
+                    return f'step {n + 1}: Spectrum.{call["fn"]}(waveunit {call["unit"]!r}) on efficiency #{call["qe"]} raised {a["err"]}'
+                if a.get('spectra_changed'):
+                    return (f'step {n + 1}: Spectrum.{call["fn"]}({call["unit"]!r}) on efficiency #{call["qe"]} changed ANOTHER '
+                            f'efficiency object: {a["spectra_changed"][0]}')
+                continue
             m = oracle(sc, a)
             if m:
                 return (f'call {n + 1} of {len(c["calls"])} ({call["fn"]}, waveunit {call["unit"]!r}, wavelengths {call["wave"]} nm) '
